@@ -797,7 +797,13 @@ void bn_gcd_ext_binar(bn_t c, bn_t d, bn_t e, const bn_t a, const bn_t b) {
 		bn_div(y, y, u);
 		bn_hlv(_a, x);
 		bn_hlv(_b, y);
-		while (bn_cmp_abs(d, _b) == RLC_GT || bn_cmp_abs(_e, _a) == RLC_GT) {
+		if (bn_is_zero(_b)) {
+			/* y = 1, that is b divides a: 0 * x + 1 * y = 1. */
+			bn_zero(d);
+			bn_set_dig(_e, 1);
+		}
+		while (!bn_is_zero(_b) &&
+				(bn_cmp_abs(d, _b) == RLC_GT || bn_cmp_abs(_e, _a) == RLC_GT)) {
 			bn_div(t, d, _b);
 			if (bn_bits(t) > 1) {
 				bn_hlv(t, t);
